@@ -4,6 +4,7 @@ reader hands out before it reports the end or the error is a prefix of what it h
 never other data.  Proved as a simulation: the reader on `rest` and the reader on `rest ++ t` make the same data steps.
 -/
 import KafkaVerif.Lemmas.XerialReader
+import KafkaVerif.Lemmas.XerialIO
 
 namespace KV.Model.Xerial
 open KV KV.RW KV.Spec.Xerial
@@ -149,14 +150,6 @@ theorem read_ext (c : Codec) (t : Bytes) (k : Nat) : ∀ (fuel fuel' : Nat) (r r
           simp only at h ⊢
           exact read_ext c t k fuel f' r2 r1 d (by omega) hx.2 h
 
-/-- everything a consumer with buffer sizes `ks` receives before the end, an error, or running out of sizes -/
-def readAllOut (c : Codec) : Reader → List Nat → Bytes
-  | _, [] => []
-  | r, k :: ks =>
-    match read c (r.rest.length + 2) r k with
-    | (r', .data b) => b ++ readAllOut c r' ks
-    | _ => []
-
 theorem readAllOut_of_readAllWith (c : Codec) : ∀ (ks : List Nat) (r : Reader) (x : Bytes),
     readAllWith c r ks = some x → readAllOut c r ks = x
   | [], r, x, h => by simp [readAllWith] at h
@@ -192,5 +185,29 @@ theorem readAllOut_prefix (c : Codec) (t : Bytes) : ∀ (ks : List Nat) (r : Rea
         exact (List.prefix_append_right_inj b).mpr (readAllOut_prefix c t ks r' hx.2)
       | eof => exact List.nil_prefix
       | err => exact List.nil_prefix
+
+/-- the same consumer on the reader whose source is a parameter (Model/XerialIO: any script of short reads, (0, nil)
+answers, data together with EOF) -/
+def readAllOutIO (c : Codec) : ReaderIO → List Nat → Bytes
+  | _, [] => []
+  | x, k :: ks =>
+    match readIO c (x.r.rest.length + 2) x k with
+    | (x', .data b) => b ++ readAllOutIO c x' ks
+    | _ => []
+
+theorem readAllOutIO_refines (c : Codec) (ks : List Nat) (x : ReaderIO) :
+    readAllOutIO c x ks = readAllOut c x.r ks := by
+  induction ks generalizing x with
+  | nil => rfl
+  | cons k ks ih =>
+    simp only [readAllOutIO, readAllOut]
+    obtain ⟨sc', h⟩ := readIO_refines c (x.r.rest.length + 2) x k
+    rw [h]
+    cases hrd : read c (x.r.rest.length + 2) x.r k with
+    | mk r' res =>
+      cases res with
+      | data b => simp only; rw [ih ⟨r', sc'⟩]
+      | eof => rfl
+      | err => rfl
 
 end KV.Model.Xerial
